@@ -229,7 +229,7 @@ TestPlugin* TestRegistry::getPluginByName(const SimpleString& name)
 void TestRegistry::removePluginByName(const SimpleString& name)
 {
     if (firstPlugin_->removePluginByName(name) == firstPlugin_) firstPlugin_ = firstPlugin_->getNext();
-    if (firstPlugin_->getName() == name) firstPlugin_ = firstPlugin_->getNext();
+    if (firstPlugin_ != NullTestPlugin::instance() && firstPlugin_->getName() == name) firstPlugin_ = firstPlugin_->getNext();
     firstPlugin_->removePluginByName(name);
 }
 
